@@ -2,4 +2,9 @@ module verif.local/kit
 
 go 1.24.0
 
-require pgregory.net/rapid v1.3.0
+require (
+	golang.org/x/crypto v0.48.0
+	pgregory.net/rapid v1.3.0
+)
+
+require golang.org/x/sys v0.41.0 // indirect
